@@ -90,6 +90,7 @@ func runE2E(t *rapid.T, scn e2eScn, w *e2eWorld, pl payload, sel datamodel.Node,
 	// once that process is gone, and the Received total is then not judged for the scenario.
 	recv0 := recvStore.len()
 	receiverCutMidBlock := false
+	reportCutInHalf := false
 	countedBlocks := func(n *e2eNode) int {
 		counted := 0
 		for _, e := range n.eventsOf(chid) {
@@ -118,6 +119,28 @@ func runE2E(t *rapid.T, scn e2eScn, w *e2eWorld, pl payload, sel datamodel.Node,
 			if n == receiver && recvStore.len()-recv0 != countedBlocks(n) {
 				receiverCutMidBlock = true
 				logf("the receiver's old process stored %d new blocks but counted %d", recvStore.len()-recv0, countedBlocks(n))
+			}
+			// one block report is two events (the byte total, then the block index): a process that
+			// stops between the two leaves half a report behind, which C07 does not cover either
+			// ("process restarts between reports")
+			half := map[datatransfer.EventCode]bool{}
+			for _, e := range n.eventsOf(chid) {
+				switch e.code {
+				case datatransfer.DataQueuedProgress, datatransfer.DataSentProgress, datatransfer.DataReceivedProgress:
+					half[e.code] = true
+				case datatransfer.DataQueued:
+					half[datatransfer.DataQueuedProgress] = false
+				case datatransfer.DataSent:
+					half[datatransfer.DataSentProgress] = false
+				case datatransfer.DataReceived:
+					half[datatransfer.DataReceivedProgress] = false
+				}
+			}
+			for code, open := range half {
+				if open {
+					reportCutInHalf = true
+					logf("the old process of the %s stopped between the two events of one block report (%s applied, its index event not)", n.name, datatransfer.Events[code])
+				}
 			}
 		})
 	}
@@ -447,6 +470,11 @@ func runE2E(t *rapid.T, scn e2eScn, w *e2eWorld, pl payload, sel datamodel.Node,
 		rs, ss = as, bs
 	}
 	logf("totals: receiver received=%d sender queued=%d sent=%d unique payload=%d", rs.Received(), ss.Queued(), ss.Sent(), uniqueSize)
+	if reportCutInHalf && (rs.Received() != uniqueSize || ss.Queued() != uniqueSize) {
+		logMu.Lock()
+		defer logMu.Unlock()
+		return "process-replaced-inside-a-block-report", "", "", log
+	}
 	if receiverCutMidBlock && rs.Received() < uniqueSize && ss.Queued() == uniqueSize {
 		logMu.Lock()
 		defer logMu.Unlock()
